@@ -31,6 +31,14 @@ def srv_par(ctx, thorough):
         if k % 3 == 0:
             steps += req(9) + [{"op": "close"}, finish(9)]             # disconnect while a handler runs
         out.append({'tag': 'par', 'cfg': {'maxConc': 4}, 'steps': steps})
+    # a stream reset by the peer (or timed out) while its handler is at work on the response: the RequestCtx is the handler's
+    # until it reports back - the stream loop closes the stream without touching it
+    for k in range(12 if thorough else 6):
+        kind = ('stream', 'streamcl', 'buf')[k % 3]
+        ender = {"op": "rst", "sid": 3, "code": (8, 0, 5)[k % 3]}
+        third = req(3, body=10) if k % 2 else req(3)
+        steps = req(1) + third + [{"op": "burst", "steps": [ender, finish(3, kind=kind, n=20000), {"op": "ping", "n": k}]}, finish(1, n=3)] + req(5) + [finish(5, n=1)]
+        out.append({'tag': 'par', 'cfg': {'maxConc': 4}, 'steps': steps})
     # response header blocks that need CONTINUATION frames: chained frames change hands (stream loop -> write loop -> pool)
     for k, n in enumerate((17000, 40000, 70000)):
         steps = req(1) + req(3) + [finish(1, n=5, hdrs_=[["x-fill", "Z" * n]]), finish(3, n=20000, kind='stream', hdrs_=[["x-fill", "Y" * (n // 2)]])]
@@ -73,6 +81,15 @@ def cli_par(ctx, thorough):
         else:
             steps += [{"op": "burst", "steps": [call(7), {"op": "goaway", "code": 0, "last": 0, "lastreq": 3}, call(8), {"op": "srvclose"}]}]
         out.append({'tag': 'par', 'cfg': {}, 'steps': steps})
+    # a streamed body whose Close takes a while (a file, a pipe): the server answers as soon as it has the last DATA frame,
+    # the caller gets its Request back and returns it to the pool - whoever closes the stream must do so before that
+    for kind in ('stream', 'streamcl'):
+        for n in (10, 30000):
+            c = call(1, n=n, kind=kind)
+            c['body']['closems'] = 250
+            c['nowait'] = True
+            steps = [c, {"op": "awaitclose"}, resp(1, es=True), {"op": "wait", "ms": 400}, call(2, n=5, kind='stream'), resp(2, es=True)]
+            out.append({'tag': 'slow-close', 'cfg': {}, 'steps': steps})
     return out
 
 
